@@ -1,13 +1,16 @@
 /-
-  C12Dist.Counter — the proviso `ExactOK` of `distUVW_attained` is NECESSARY (finding, reproduced in Go against /repo):
-  for the leaf cell `0x151f46a85da62db5` (face 0) and the (unit to 1.4e-17) point `pX` the float tangential test of the
-  LEFT edge passes although the exact quantity `vTan u0 v1` is `+3.0e-17 > 0`; `Cell.Distance` returns the distance to
-  the great circle of that edge, `1.999999965824041`, while EVERY point of the cell is at squared distance
-  `≥ 2.00000003` from `pX` (true value 2.000000034175959): the reported value is `6.8e-8` BELOW the true distance and
-  is not the distance to any point of the cell.  (The lower bound `distUVW_lower` is not contradicted: it is an upper
-  bound on the reported value.)
+  C12Dist.Counter — REGRESSION WITNESS for defect D58 (repaired): for the code BEFORE the repair
+  (`OldModel.lean`: tangential tests without margin) the edge clauses of the proviso `ExactOK` were NECESSARY.
+  For the leaf cell `0x151f46a85da62db5` (face 0) and the (unit to 1.4e-17) point `pX` the OLD float tangential test of
+  the LEFT edge passes although the exact quantity `vTan u0 v1` is `+3.0e-17 > 0`; the old `Cell.Distance` returned the
+  distance to the great circle of that edge, `1.999999965824041`, while EVERY point of the cell is at squared distance
+  `≥ 2.00000003` from `pX` (true value 2.000000034175959): `6.8e-8` BELOW the true distance and not the distance to any
+  point of the cell (reproduced against the unrepaired Go code).
+  With the margin (current model `S2.CellM`) the same input falls through to the vertex branch and the value is
+  `40000000049646e9 = 2.0000000341759585` (`counter_value_repaired`, the value the repaired Go code returns).
 -/
 import S2Proofs.C12Dist.Attained
+import S2Proofs.C12Dist.OldModel
 import S2Proofs.C12.Children
 import Mathlib.Tactic.NormNum
 
@@ -29,14 +32,6 @@ theorem cX_eq : cX = cellX := by
   unfold cX cellX
   rw [S2Proofs.C12C.cellFromCellID_eq h]
   decide +kernel
-
-/-- the exact value of a float from its integer `toInt x = m·2^k` -/
-theorem val_of_toInt {x : F64} {m : ℤ} {k j : ℕ} (h : toInt x = m * 2 ^ k) (hkj : 1074 = k + j) :
-    val x = (m : ℝ) / 2 ^ j := by
-  unfold val
-  rw [h, hkj, pow_add]
-  push_cast
-  field_simp
 
 theorem val_u0 : val ⟨0x3fe6f6789fb13d05⟩ = 6463447423335685 / 2 ^ 53 := by
   have h : toInt ⟨0x3fe6f6789fb13d05⟩ = 6463447423335685 * 2 ^ 1021 := by decide +kernel
@@ -133,9 +128,13 @@ theorem far_TX (q : R3) (hq : InCell RX q) : 2 + 3 / 10 ^ 8 ≤ dist2 TX q := by
   have e' : (3 : ℝ) / 10 ^ 8 ≤ 3125 / 10 ^ 11 := by norm_num
   linarith
 
-/-- the float test of the left-edge branch passes … -/
+/-- the OLD float test (no margin) of the left-edge branch passes … -/
 theorem branch_taken :
-    (F64.lt (dirs cellX (faceXYZtoUVW 0 pX)).dir00 fzero && vEdgeIsClosest cellX (faceXYZtoUVW 0 pX) false) = true := by
+    (F64.lt (dirs cellX (faceXYZtoUVW 0 pX)).dir00 fzero && vEdgeIsClosestOld cellX (faceXYZtoUVW 0 pX) false) = true := by
+  decide +kernel
+
+/-- … the test WITH the margin of repair D58 does not -/
+theorem branch_not_taken_repaired : vEdgeIsClosest cellX (faceXYZtoUVW 0 pX) false = false := by
   decide +kernel
 
 /-- … although the exact tangential quantity at the upper end of the edge has the wrong sign (`≈ +3.0e-17`) -/
@@ -146,10 +145,15 @@ end Counter
 
 open Counter
 
-/-- what `Cell.Distance` returns (bit-exact; the Go code returns the same) -/
-theorem counter_value : distance cX pX = ⟨0x3ffffffff6d3722c⟩ := by
+/-- what `Cell.Distance` returned BEFORE repair D58 (bit-exact; the unrepaired Go code returns the same) -/
+theorem counter_value : distanceOld cX pX = ⟨0x3ffffffff6d3722c⟩ := by
   rw [cX_eq]
   decide +kernel
+
+/-- what `Cell.Distance` returns AFTER the repair (bit-exact; the repaired Go code returns the same): vertex branch -/
+theorem counter_value_repaired : distance cX pX = ⟨0x40000000049646e9⟩ ∧ distanceBranch cX pX = 5 := by
+  rw [cX_eq]
+  constructor <;> decide +kernel
 
 /-- every point of the cell is at squared distance `≥ 2.00000003` from `pX` -/
 theorem counter_truth (q : R3) (hq : InCellXYZ cX q) : 2 + 3 / 10 ^ 8 ≤ dist2 (ofV pX) q := by
@@ -160,19 +164,18 @@ theorem counter_truth (q : R3) (hq : InCellXYZ cX q) : 2 + 3 / 10 ^ 8 ≤ dist2 
   rw [← T_eq, uvwR_dist2] at h
   exact h
 
-/-- the reported value is `≤ 1.99999997` -/
-theorem counter_gap : val (distance cX pX) ≤ 2 - 3 / 10 ^ 8 := by
+/-- the value reported before the repair is `≤ 1.99999997` -/
+theorem counter_gap : val (distanceOld cX pX) ≤ 2 - 3 / 10 ^ 8 := by
   rw [counter_value, val_d]; norm_num
 
-/-- the reported value is more than `6e-8` below the distance to EVERY point of the cell: not attained -/
+/-- before the repair the reported value was more than `6e-8` below the distance to EVERY point of the cell: not attained -/
 theorem counter_not_attained (q : R3) (hq : InCellXYZ cX q) :
-    6 / 10 ^ 8 ≤ dist2 (ofV pX) q - val (distance cX pX) := by
+    6 / 10 ^ 8 ≤ dist2 (ofV pX) q - val (distanceOld cX pX) := by
   have h1 := counter_truth q hq
   have h2 := counter_gap
   linarith
 
-/-- the counterexample satisfies all standing assumptions `Ctx` of `distUVW_attained` (and `0 < |t|²`): only the
-    proviso `ExactOK` fails -/
+/-- the counterexample satisfies all standing assumptions `Ctx` of `distUVW_attained` (and `0 < |t|²`) -/
 theorem counter_ctx : Ctx cX (faceXYZtoUVW cX.face pX) ∧ 0 < (ofV (faceXYZtoUVW cX.face pX)).norm2 := by
   rw [cX_eq]
   have e : ofV (faceXYZtoUVW cellX.face pX) = TX := by
@@ -184,17 +187,16 @@ theorem counter_ctx : Ctx cX (faceXYZtoUVW cX.face pX) ∧ 0 < (ofV (faceXYZtoUV
   · rw [e]; unfold R3.norm2; simp only [TX]; norm_num
   · rw [e]; have := TX_norm2; linarith
 
-/-- the conclusion of `distUVW_attained` FAILS for the counterexample with any error bound up to `5e-8`
+/-- the conclusion of `distUVW_attained` FAILED for the old code on the counterexample with any error bound up to `5e-8`
     (the proved bound `max (eE + 27u) vertErr + (|t|−1)²` is of the order `1e-14`) -/
 theorem counter_attained_fails :
     ¬ ∃ q : R3, InCell (rectOf cX) q ∧
-      |val (distUVW cX (faceXYZtoUVW cX.face pX)) - min 4 (dist2 (ofV (faceXYZtoUVW cX.face pX)) q)| ≤ 5 / 10 ^ 8 := by
+      |val (distanceOld cX pX) - min 4 (dist2 (ofV (faceXYZtoUVW cX.face pX)) q)| ≤ 5 / 10 ^ 8 := by
   rintro ⟨q, hq, h⟩
-  rw [← distance_eq_distUVW] at h
   have hg := counter_gap
-  rw [cX_eq] at hq h hg
-  have e : ofV (faceXYZtoUVW cellX.face pX) = TX := by
-    rw [ofV_uvw]; exact T_eq
+  rw [cX_eq] at hq
+  have e : ofV (faceXYZtoUVW cX.face pX) = TX := by
+    rw [cX_eq, ofV_uvw]; exact T_eq
   rw [e] at h
   rw [rect_eq] at hq
   have hf := far_TX q hq
@@ -202,8 +204,19 @@ theorem counter_attained_fails :
   have := (abs_le.1 h).1
   linarith
 
-/-- the float tests of the branch taken do not agree with the exact quantities -/
-theorem counter_not_exactOK : ¬ ExactOK cX (faceXYZtoUVW cX.face pX) := by
+/-- the edge clauses of the proviso with the OLD float tests -/
+def EdgeTestsExactOld (c : Cell) (t : V3) : Prop :=
+  ((F64.lt (dirs c t).dir00 fzero && vEdgeIsClosestOld c t false) = true →
+      0 < vTan (rectOf c).u0 (rectOf c).v0 (ofV t) ∧ vTan (rectOf c).u0 (rectOf c).v1 (ofV t) < 0) ∧
+  ((F64.gt (dirs c t).dir01 fzero && vEdgeIsClosestOld c t true) = true →
+      0 < vTan (rectOf c).u1 (rectOf c).v0 (ofV t) ∧ vTan (rectOf c).u1 (rectOf c).v1 (ofV t) < 0) ∧
+  ((F64.lt (dirs c t).dir10 fzero && uEdgeIsClosestOld c t false) = true →
+      0 < uTan (rectOf c).v0 (rectOf c).u0 (ofV t) ∧ uTan (rectOf c).v0 (rectOf c).u1 (ofV t) < 0) ∧
+  ((F64.gt (dirs c t).dir11 fzero && uEdgeIsClosestOld c t true) = true →
+      0 < uTan (rectOf c).v1 (rectOf c).u0 (ofV t) ∧ uTan (rectOf c).v1 (rectOf c).u1 (ofV t) < 0)
+
+/-- before the repair the float tests of the branch taken did not agree with the exact quantities … -/
+theorem counter_not_exactOK : ¬ EdgeTestsExactOld cX (faceXYZtoUVW cX.face pX) := by
   intro h
   rw [cX_eq] at h
   have h1 := (h.1 branch_taken).2
@@ -211,5 +224,8 @@ theorem counter_not_exactOK : ¬ ExactOK cX (faceXYZtoUVW cX.face pX) := by
     rw [ofV_uvw]; exact T_eq
   rw [e, rect_eq] at h1
   exact absurd h1 (not_lt.2 vTan_wrong.le)
+
+/-- … after the repair they do, on the same input as on every other (`edge_tests_exact`) -/
+theorem counter_exactOK_repaired : EdgeTestsExact cX (faceXYZtoUVW cX.face pX) := edge_tests_exact counter_ctx.1
 
 end S2Proofs.C12Dist
